@@ -15,7 +15,7 @@ Theorem sum_by_group_paths_equal :
   Permutation order1 (seq 0 (length ks)) -> Sorted Z.le (permute 0 order1 ks) ->
   Permutation order2 (seq 0 (length ks)) -> Sorted Z.le (permute 0 order2 ks) ->
   (forall k, In k ks -> 0 <= k) -> length vs = length ks ->
-  sbg zero add sub nb1 inst1 order1 ks vs = sbg zero add sub nb2 inst2 order2 ks vs.
+  sbg zero add nb1 inst1 order1 ks vs = sbg zero add nb2 inst2 order2 ks vs.
 Proof.
   intros A zero one add mul sub opp Rth nb1 i1 nb2 i2 o1 o2 ks vs H1 S1 H2 S2 Hp Hl.
   rewrite (C06.Proofs.sbg_all_paths_spec zero one add mul sub opp Rth nb1 i1 o1 ks vs H1 S1 Hp Hl).
